@@ -29,6 +29,7 @@ type prefixCase struct {
 	Clients int    `json:"clients"`
 	Msgs    int    `json:"msgs"`
 	Seed    int64  `json:"seed"`
+	Probe   string `json:"probe,omitempty"`
 }
 
 type prefixEngine struct{}
@@ -56,6 +57,10 @@ func genPool(rng *rand.Rand, plen int) string {
 }
 
 func (prefixEngine) Gen(rng *rand.Rand, tier string, i int) any {
+	if i%64 == 63 {
+		// long-gap probe: a holder comes back after exactly 2^k-1, 2^k, 2^k+1 ... IA_PDs of other clients
+		return &prefixCase{Pool: genPool(rng, 56), Alloc: 64, Clients: 2, Msgs: 0, Seed: rng.Int63(), Probe: "gap"}
+	}
 	sh := prefixShapes[rng.Intn(len(prefixShapes))]
 	return &prefixCase{Pool: genPool(rng, sh[0]), Alloc: sh[1], Clients: 1 + rng.Intn(6), Msgs: 20 + rng.Intn(41), Seed: rng.Int63()}
 }
@@ -85,19 +90,19 @@ func genDUID(rng *rand.Rand, i int) []byte {
 }
 
 type pdRun struct {
-	ctx    *fw.Ctx
-	c      *prefixCase
-	rng    *rand.Rand
-	m      *model.PrefixModel
-	pool   *net.IPNet
-	s      *srv6
-	duids  [][]byte
-	xid    uint32
-	trace  []string
-	nmsgs  map[int]int
-	lastTyp map[int]byte
+	ctx         *fw.Ctx
+	c           *prefixCase
+	rng         *rand.Rand
+	m           *model.PrefixModel
+	pool        *net.IPNet
+	s           *srv6
+	duids       [][]byte
+	xid         uint32
+	trace       []string
+	nmsgs       map[int]int
+	lastTyp     map[int]byte
 	noManyHints bool
-	sawRenew bool
+	sawRenew    bool
 }
 
 func (r *pdRun) tr(format string, a ...any) {
@@ -160,7 +165,23 @@ func (r *pdRun) genHint(client string) hintSpec {
 	case k == 9: // longer than the allocation size, inside the pool
 		if al < 128 {
 			l := al + 1 + r.rng.Intn(128-al)
-			return hintSpec{"longer-than-alloc", r.blockAddr(int64(r.rng.Int63n(int64(r.m.N)))), l}
+			b := r.rng.Int63n(int64(r.m.N))
+			if r.rng.Intn(3) == 0 {
+				b = 0 // the first block of the pool
+			}
+			ip := r.blockAddr(b)
+			if ip != nil && r.rng.Intn(2) == 0 {
+				// a canonical sub-prefix somewhere inside the block: bits set between the allocation size and
+				// its own length, none beyond
+				ip = append(net.IP{}, ip...)
+				for i := al; i < l; i++ {
+					if r.rng.Intn(2) == 0 {
+						ip[i/8] |= 0x80 >> uint(i%8)
+					}
+				}
+				return hintSpec{"sub-prefix-of-block", ip, l}
+			}
+			return hintSpec{"longer-than-alloc", ip, l}
 		}
 		return hintSpec{"in-pool-free", r.blockAddr(int64(r.rng.Int63n(int64(r.m.N)))), al}
 	default:
@@ -342,6 +363,31 @@ func (r *pdRun) exchange(data []byte, desc string) {
 	}
 }
 
+// gapProbe: client A is told it holds P, then other clients send exactly g IA_PDs (g around 2^8 and 2^16,
+// every value from g-2 to g+2), then A repeats its hint-less request: it must get P again, however many
+// exchanges the server has handled in between.
+func (r *pdRun) gapProbe() {
+	hintless := func(ci int, typ byte) []byte {
+		r.xid++
+		return pkt.Msg6(typ, r.xid, []pkt.Opt6{pkt.O6(pkt.OptClientID6, r.duids[ci]), pkt.IAPD(1, 0, 0, nil)})
+	}
+	r.exchange(hintless(0, 1), "c0 SOLICIT hint-less")
+	r.exchange(hintless(1, 1), "c1 SOLICIT hint-less")
+	for _, g := range []int{253, 254, 255, 256, 257, 258, 65533, 65534, 65535, 65536, 65537, 65538} {
+		for k := 0; k < g; k++ {
+			data := hintless(1, 3)
+			if k%4096 == 0 {
+				r.exchange(data, fmt.Sprintf("c1 REQUEST hint-less (#%d of %d)", k, g))
+			} else {
+				one6(r.s, data)
+			}
+		}
+		r.exchange(hintless(0, 3), fmt.Sprintf("c0 REQUEST hint-less after exactly %d IA_PDs of another client", g))
+		r.ctx.Count("prefix.gap_probes", 1)
+	}
+	r.ctx.Nontrivial("C09", fmt.Sprintf("gap/%s/%d", r.c.Pool, r.c.Seed))
+}
+
 func describeRep(rep []model.ReplyPD) string {
 	var sb strings.Builder
 	for _, r := range rep {
@@ -407,6 +453,10 @@ func (prefixEngine) Run(ctx *fw.Ctx, cs any) {
 			d = siblingDUID(r.rng, r.duids[r.rng.Intn(i)])
 		}
 		r.duids = append(r.duids, d)
+	}
+	if c.Probe == "gap" {
+		r.gapProbe()
+		return
 	}
 	var last []byte
 	lastClient := 0
